@@ -11,6 +11,7 @@ ctx = core.Ctx("C06", "quick", 1)
 b = ctx.build_harness("pm_drv.cpp", c.tag, c.flags)
 o = ctx.build_oracle("pm")
 chain = c.kind == "chain"
+with_rep = any(l.startswith("REP") for l in case["script"])
 
 def valid(ops):
     order, rowids, bds, uid = [], [], {}, 0
@@ -43,6 +44,7 @@ def fails(ops):
     lines = ["CASE s", "NEW 2"]
     for l in ops:
         lines.append(l); lines.append("DUMP")
+        if c.d.get("REP") and with_rep: lines.append("REP")
     rc, out, err = ctx.run_bin(b, "\n".join(lines) + "\n", timeout=20)
     if rc != 0: return True
     rc2, out2, err2 = ctx.run_bin(o, out, args=["chain" if chain else c.kind, "ident" if c.d["IDX"] == "IDENTIFIER" else "other"])
